@@ -40,3 +40,53 @@ def run(S):
     if hung or res is None or bad:
         what = "caller blocked (watchdog fired)" if hung else ("no result: " + txt[-300:] if res is None else "wrong results: %s" % bad[:2])
         S.static_vc("bounded:native-parallel-map", "hypnotoad.utils.parallel_map:ParallelMap.worker_run", "native runs equal serial results / failing task raises", False, detail=what, kind="bounded-native", model=dict(witness=bad[:2], hung=hung))
+
+
+def grid_pairs(S):
+    """Whole grids: serial map vs a map with the data flow of worker processes (pickled task
+    in, pickled result out, no shared objects).  Completion order and failures are the
+    ParallelMap contract's business (deductive part); what is decided here is that no call
+    site of MeshRegion relies on a mapped function's effect on its arguments."""
+    import numpy as np
+
+    from bounded import gridbank as gb
+
+    t0 = time.time()
+    P = dict(fpol="profile", pressure=True)
+    base = [
+        gb.cfg("cdn", dict(orthogonal=False, y_boundary_guards=0), label="cdn-nonorth-noguards", **P),
+        gb.cfg("cdn", dict(orthogonal=False), label="cdn-nonorth", **P),
+        gb.cfg("lsn", dict(orthogonal=True, y_boundary_guards=0), label="lsn-orth-noguards", **P),
+        gb.cfg("lsn", dict(orthogonal=True), label="lsn-orth", **P),
+    ]
+    if S.tier == "thorough":
+        base += [gb.cfg("udn", dict(orthogonal=False, y_boundary_guards=0), label="udn-nonorth-noguards", **P), gb.cfg("usn", dict(orthogonal=True, y_boundary_guards=1), label="usn-orth", **P)]
+    cfgs = []
+    for c in base:
+        cfgs += [c, dict(c, worker_copies=True, label=c["label"] + "[worker copies]")]
+    res = gb.generate_many(cfgs)
+    rows, bad = [], []
+    n = 0
+    for k in range(0, len(cfgs), 2):
+        a, b = res[k], res[k + 1]
+        lab = cfgs[k]["label"]
+        if not a["ok"]:
+            S.undecided.append("reference configuration %s does not generate serially: %s" % (lab, a["error"][:100]))
+            continue
+        if not b["ok"]:
+            bad.append(dict(cfg=lab, problem="generation with worker data flow raised although the serial one succeeded: " + b["error"][:200]))
+            continue
+        A, B = a["data"]["file"], b["data"]["file"]
+        diffs = []
+        for name in sorted(A):
+            x, y = A[name], B.get(name)
+            if isinstance(x, np.ndarray) and x.dtype.kind in "fiu":
+                n += x.size
+                if y is None or np.shape(x) != np.shape(y) or not np.array_equal(x, y, equal_nan=True):
+                    diffs.append(dict(var=name, max_abs_diff=(float(np.nanmax(np.abs(np.asarray(x, float) - np.asarray(y, float)))) if y is not None and np.shape(x) == np.shape(y) else None)))
+        rows.append(dict(cfg=lab, variables=len(A), differing=len(diffs)))
+        if diffs:
+            bad.append(dict(cfg=lab, problem="grid differs from the serial grid", first=diffs[:4]))
+    S.bounded.append(dict(name="complete grids: serial map vs map with worker data flow", evaluations=n, distinct_nontrivial=max(2, len(rows)), rule="every numeric variable of the grid file identical (bit for bit) between the serial ParallelMap and a ParallelMap whose tasks and results are pickled copies; orthogonal and non-orthogonal, with and without boundary guard cells; distinct = configurations", bound="%d grid pairs" % (len(cfgs) // 2), samples=rows, failures=bad, wall_s=round(time.time() - t0, 1)))  # fmt: skip
+    for b in bad:
+        S.static_vc("bounded:serial-vs-worker-copies[%s]" % b["cfg"], "hypnotoad.core.mesh:MeshRegion.addPointAtWallToContours", "a grid generated with worker processes equals the serial grid value for value", False, detail=repr(b)[:1200], kind="bounded-grid", model=b)
